@@ -29,6 +29,10 @@ func init() {
 			"re-queue semantics.",
 		Run: runC19,
 		Mutants: []Mutant{
+			{Name: "submit-after-unlock", File: "internal/bgp/frr/frr.go",
+				Old: "\tsm.Lock()\n\tdefer sm.Unlock()\n\tsm.extraConfig = extraInfo\n\tfrrConfig, err := sm.createConfig()\n", New: "\tsm.Lock()\n\tsm.extraConfig = extraInfo\n\tfrrConfig, err := sm.createConfig()\n\tsm.Unlock()\n", Expect: "SUBMIT-UNDER-LOCK"},
+			{Name: "create-not-found-not-retried", File: "internal/k8s/controllers/frrk8s_config_controller.go",
+				Old: "\"event\", \"failed to create frr8s configuration\")\n\t\treturn ctrl.Result{}, err", New: "\"event\", \"failed to create frr8s configuration\")\n\t\treturn ctrl.Result{}, client.IgnoreNotFound(err)", Expect: "K8S-DELIVER"},
 			{Name: "first-routerless-configuration-skipped", File: "internal/bgp/frr/frr.go",
 				Old: "\treload := func(config *frrConfig) error {\n\t\treturn generateAndReloadConfigFile(config, l)\n\t}\n\n\tdebouncer(reload, res.reloadConfig, debounceTimeout, failureTimeout, l)\n\n\treloadValidator(l, res.reloadConfig)\n\n\treturn res\n}\n\nfunc mockNewSessionManager",
 				New: "\tconfigured := false\n\treload := func(config *frrConfig) error {\n\t\tif !configured && len(config.Routers) == 0 {\n\t\t\treturn nil\n\t\t}\n\t\tconfigured = true\n\t\treturn generateAndReloadConfigFile(config, l)\n\t}\n\n\tdebouncer(reload, res.reloadConfig, debounceTimeout, failureTimeout, l)\n\n\treloadValidator(l, res.reloadConfig)\n\n\treturn res\n}\n\nfunc mockNewSessionManager", Expect: "action-is-the-reload"},
@@ -70,6 +74,7 @@ func init() {
 }
 
 func runC19(p *chk.Prog, r *chk.Report) {
+	c19SubmitUnderLock(p, r)
 	scratchRule(p, r, frrPkg, "internal/k8s/controllers")
 	c19Debouncer(p, r)
 	c19Submit(p, r)
@@ -538,7 +543,7 @@ func c19Submit(p *chk.Prog, r *chk.Report) {
 		for _, ds := range ng.FindPat("debouncer(ACT, ETC)") {
 			nAct++
 			act := throughLocals(ng, ds.Node.(*ast.CallExpr).Args[0])
-			lit, isLit := ast.Unparen(act).(*ast.FuncLit)
+			lit, isLit := unconv(nf, act).(*ast.FuncLit)
 			if !isLit {
 				// the reload function itself (same signature) handed over directly
 				okAct = okAct && nf.MatchNew("generateAndReloadConfigFile", act) != nil
@@ -770,14 +775,14 @@ func c19NoReach(p *chk.Prog, r *chk.Report) {
 	}
 	// the reload action literals handed to debouncer
 	for _, cs := range p.CallSites(frrPkg + ".debouncer") {
-		arg := cs.Call.Args[0]
+		arg := unconv(cs.Fn, cs.Call.Args[0])
 		var lit *ast.FuncLit
-		if l, ok := ast.Unparen(arg).(*ast.FuncLit); ok {
+		if l, ok := arg.(*ast.FuncLit); ok {
 			lit = l
-		} else if id, ok := ast.Unparen(arg).(*ast.Ident); ok {
+		} else if id, ok := arg.(*ast.Ident); ok {
 			for _, a := range assignsTo(cs.Fn, cs.Fn.ObjOf(id)) {
 				if as, ok := a.(*ast.AssignStmt); ok && len(as.Rhs) == 1 {
-					lit, _ = as.Rhs[0].(*ast.FuncLit)
+					lit, _ = unconv(cs.Fn, as.Rhs[0]).(*ast.FuncLit)
 				}
 			}
 		}
@@ -991,6 +996,9 @@ func c19K8s(p *chk.Prog, r *chk.Report) {
 						}
 					}
 					rs, isRet := nd.(*ast.ReturnStmt)
+					if isRet && chk.Encloses(region, nd) && len(rs.Results) == 2 && call != "RECV.Get(ETC)" && rf.MatchNew("client.IgnoreNotFound(E)", ast.Unparen(rs.Results[1])) != nil {
+						return true // a create that fails with not-found (no namespace yet) produces no event to retry on
+					}
 					return isRet && chk.Encloses(region, nd) && len(rs.Results) == 2 && rf.IsNilLit(rs.Results[1])
 				}}).Run()
 				x.Check("Reconcile:error-returned("+call+")", posOf(w, rf), !w.Found, "", "an API error while applying the configuration is swallowed: the request is not re-queued and the latest configuration is never applied")
@@ -1008,6 +1016,12 @@ func c19K8s(p *chk.Prog, r *chk.Report) {
 		okSpec := false
 		ast.Inspect(rf.Body, func(nd ast.Node) bool {
 			if c, isCall := nd.(*ast.CallExpr); isCall && rf.MatchNew("RECV.desiredConfiguration.Spec.DeepCopyInto(&T.Spec)", c) != nil {
+				okSpec = true
+			}
+			// ... or assigned from a deep copy of it
+			if as, isAs := nd.(*ast.AssignStmt); isAs && len(as.Lhs) == 1 && len(as.Rhs) == 1 && rf.MatchNew("T.Spec", as.Lhs[0]) != nil &&
+				(rf.MatchNew("*RECV.desiredConfiguration.Spec.DeepCopy()", ast.Unparen(as.Rhs[0])) != nil || rf.MatchNew("*(RECV.desiredConfiguration.Spec.DeepCopy())", ast.Unparen(as.Rhs[0])) != nil ||
+					rf.MatchNew("RECV.desiredConfiguration.DeepCopy().Spec", ast.Unparen(as.Rhs[0])) != nil) {
 				okSpec = true
 			}
 			return true
@@ -1092,4 +1106,43 @@ func c19K8s(p *chk.Prog, r *chk.Report) {
 			x.OK("Reconcile:success-needs-write", rf.Pos(), "")
 		}
 	}
+}
+
+// c19SubmitUnderLock: in FRR mode building the configuration and handing it to the debouncer is one step under the
+// session manager's lock. The debouncer takes the last configuration it receives for the newest; a hand-over outside
+// the lock can be overtaken by a newer one and arrive last.
+func c19SubmitUnderLock(p *chk.Prog, r *chk.Report) {
+	x := r.Rule("SUBMIT-UNDER-LOCK", "C locks (must-hold lockset dataflow)", "every send on frr.sessionManager.reloadConfig made by a method of the session manager or of a session (the submitters) executes with the session manager's mutex held - the mutex under which createConfig built what is sent", 4)
+	lock := p.LockField(frrPkg, "sessionManager", "")
+	if lock == nil {
+		x.Undecided("anchor:sessionManager-lock", "UNDECIDED anchor missing")
+		return
+	}
+	la := locksOf(p)
+	n := 0
+	for _, f := range p.FuncsIn(frrPkg) {
+		if f.Body == nil || f.Lit != nil || f.Recv() == nil {
+			continue
+		}
+		ast.Inspect(f.Body, func(nd ast.Node) bool {
+			if _, isLit := nd.(*ast.FuncLit); isLit {
+				return false
+			}
+			ss, ok := nd.(*ast.SendStmt)
+			if !ok {
+				return true
+			}
+			se, isSel := ast.Unparen(ss.Chan).(*ast.SelectorExpr)
+			if !isSel || se.Sel.Name != "reloadConfig" {
+				return true
+			}
+			n++
+			r.Saw(f)
+			h := la.HeldAt(f, ss)
+			_, held := h[lock]
+			x.Check("submit@"+f.Name(), ss.Pos(), h == nil || held, "", "a configuration is handed to the debouncer after the session manager's lock was released: a newer configuration, built and submitted by another handler in between, is then replaced by this older one - the last configuration applied is not the most recently submitted")
+			return true
+		})
+	}
+	x.Check("submit-sites", 0, n >= 4, "", "fewer submit sites than on the confirmed tree")
 }
